@@ -4,6 +4,9 @@ import OtelVerif.Lemmas.C04Pinned
 import OtelVerif.Lemmas.C04Bound
 import OtelVerif.Lemmas.C04BoundBytes
 import OtelVerif.Lemmas.C04BoundMetrics
+import OtelVerif.Lemmas.C04Fifo
+import OtelVerif.Lemmas.C04History
+import OtelVerif.Lemmas.C04ErrHist
 import OtelVerif.Lemmas.C04Done
 import OtelVerif.Lemmas.C04Cover
 /-!
@@ -227,7 +230,7 @@ theorem mergeSplit_bound {P : Type} (o : Ops P) (heavy : P → Nat) (hs : SizeEx
 /-- **size bound, items sizer** (logs, traces, profiles): with `max_size > 0`, every request `MergeSplit` returns has at
 most `max_size` items (weight: 1 per log record / span, the number of samples per profile) unless it holds at most one
 item that weighs anything — the single indivisible item (a profile with more samples than `max_size`).
-The bytes-sizer bound (needs monotonicity of `DeltaSize`) is not a theorem: `bound` oracle on every output of every run. -/
+The bytes-sizer bound is `C04_bound_bytes` below. -/
 theorem C04_bound_items (max : Int) (hmax : 0 < max) (r1 : Req (List Res)) (r2 : Option (Req (List Res)))
     (out : List (Req (List Res))) (h : mergeSplit (logsOps ⟨false⟩) max r1 r2 = some out)
     (h1 : r1.exact (logsOps ⟨false⟩)) (h2 : ∀ r, r2 = some r → r.exact (logsOps ⟨false⟩)) :
@@ -267,6 +270,65 @@ example :
     (mergeSplit (logsOps ⟨true⟩) 100 { p := [⟨⟨1, 0, 11⟩, [⟨⟨2, 0, 0, 0, 6⟩, [⟨10, 515, 1⟩, ⟨11, 15, 1⟩]⟩]⟩] } none).map
       (fun out => out.map (fun r => (flatten r.p).map (·.2.2.id))) = some [[10], [11]] := by decide
 
+
+/-! ## the bridge between `MergeSplit` and the contract (`pack`) the batcher theorems are stated over
+
+`default_batcher.go` relies on three facts about `MergeSplit`: the results list the items in arrival order with the pending
+batch's items first (FIFO); the receiver is returned as the last result; "the first result's `ItemsCount()` exceeds the
+pending batch's" ⇔ "the first result holds part of the new request".  `pack` (Model) states exactly that contract; the two
+theorems below prove the first and third fact of the model `mergeSplit` (which is tied to the real one by exact
+differential); the second is an object-identity fact checked on every `MergeSplit` call of the harness (`last_is_receiver`),
+and the `fifo` oracle re-checks the order on the real output. -/
+
+theorem mergeSplit_fifo_aux {P β : Type} (o : Ops P) (flat : P → List β) (hc : FifoOps o flat) (max : Int)
+    (r : Req P) (out : List (Req P)) (h : (if max == 0 then some [r] else split o max r) = some out) :
+    flatReqs flat out = flat r.p := by
+  split at h
+  · injection h with h; subst h; rw [flatReqs_single]
+  · have := splitLoop_fifo o flat hc max _ _ [] out h
+    simpa [flatReqs] using this
+
+/-- **`MergeSplit` is FIFO** (logs, traces, profiles; items and bytes): the items of the returned requests, concatenated in
+result order, are exactly the receiver's items followed by the merged-in request's items, in their original order -/
+theorem C04_mergeSplit_fifo (sz : Sizer) (max : Int) (r1 : Req (List Res)) (r2 : Option (Req (List Res)))
+    (out : List (Req (List Res))) (h : mergeSplit (logsOps sz) max r1 r2 = some out) :
+    flatReqs flatten out = flatten r1.p ++ optFlat flatten r2 := by
+  cases r2 with
+  | none =>
+    have := mergeSplit_fifo_aux _ flatten (logs_fifoOps sz) max r1 out h
+    simpa [optFlat] using this
+  | some r2 =>
+    have := mergeSplit_fifo_aux _ flatten (logs_fifoOps sz) max (mergeTo (logsOps sz) r1 r2) out h
+    simpa [optFlat, mergeTo, logsOps, flatten] using this
+
+/-- **the criterion of `Consume`**: the first result is a prefix of "pending batch, then new request"; it has no more items
+than the pending batch ⇒ it holds only items of the pending batch (no part of the new request), and more ⇒ it holds the whole
+pending batch followed by a non-empty part of the new request -/
+theorem C04_first_result_criterion (sz : Sizer) (max : Int) (r1 r2 : Req (List Res)) (first : Req (List Res))
+    (rest : List (Req (List Res))) (h : mergeSplit (logsOps sz) max r1 (some r2) = some (first :: rest)) :
+    ((flatten first.p).length ≤ (flatten r1.p).length → ∃ t, flatten r1.p = flatten first.p ++ t) ∧
+    ((flatten first.p).length > (flatten r1.p).length →
+      ∃ t, t ≠ [] ∧ flatten first.p = flatten r1.p ++ t ∧ ∃ u, flatten r2.p = t ++ u) := by
+  have hf := C04_mergeSplit_fifo sz max r1 (some r2) (first :: rest) h
+  simp only [flatReqs, List.flatMap_cons, optFlat] at hf
+  rcases List.append_eq_append_iff.mp hf with ⟨a', h1, h2⟩ | ⟨c', h1, h2⟩
+  · -- r1 = first ++ a'
+    refine ⟨fun _ => ⟨a', h1⟩, fun hgt => ?_⟩
+    have := congrArg List.length h1
+    simp only [List.length_append] at this
+    omega
+  · -- first = r1 ++ c'
+    refine ⟨fun hle => ?_, fun hgt => ?_⟩
+    · have := congrArg List.length h1
+      simp only [List.length_append] at this
+      have hc0 : c' = [] := List.eq_nil_of_length_eq_zero (by omega)
+      subst hc0
+      exact ⟨[], by simpa using h1.symm⟩
+    · refine ⟨c', ?_, h1, _, h2⟩
+      intro h0; subst h0
+      simp at h1
+      rw [h1] at hgt
+      omega
 
 /-! ## completion callbacks of the batcher, over ALL histories
 
@@ -365,7 +427,8 @@ so no batch's outcome is ever reported to a request none of whose data it carrie
 
 Together: `C04_done_once` (fires exactly once, after the last batch holding one of its Dones, for every history),
 `C04_done_covers_all_parts` (every batch containing part of r holds a Done of r), this theorem (only those do) and
-`C04_done_combines_errors` (the ref-count reports the union of the outcomes it was fed) give the property's clause: the
+`C04_done_error_iff` (over every history, the reported outcome is the combination of the outcomes of exactly the flushes that
+held one of its Dones; `C04_done_combines_errors` is the stand-alone ref-count fact behind it) give the property's clause: the
 callback of r fires exactly once, only after every batch containing part of r has finished, and reports an error iff
 one of those batches failed. -/
 theorem C04_done_only_own_parts (c : BCfg) (hv : c.max = 0 ∨ c.min ≤ c.max) (ls : List BLabel)
@@ -384,6 +447,56 @@ items of BOTH requests and both `Done`s (request 2's through a ref-count of 2), 
 example :
     ((brun ⟨5, 10⟩ {} [.consume 1 (List.replicate 4 (1, 1)), .consume 2 (List.replicate 16 (2, 1))]).1.slots.map
       (fun b => ((b.1.map (·.1)).eraseDups, b.2))) = [([1, 2], [.base 1, .ref 0]), ([2], [.ref 0])] := by decide
+
+/-- **error iff, over every history**: the outcome a callback reports is exactly the combination (`multierr.Append`: union of
+error classes, `{}` = success) of the outcomes of the `finish` labels of the flushes that held a `Done` of that request —
+`doneLog` records, for every flush that ends, its outcome under every request one of its `Done`s belongs to.  With
+`C04_done_covers_all_parts` and `C04_done_only_own_parts` (those flushes are exactly the batches containing part of the
+request): it reports an error iff one of the batches containing part of it failed, and which classes. -/
+theorem C04_done_error_iff (c : BCfg) (ls : List BLabel) (hnd : (consumedIds ls).Nodup) :
+    ∀ x ∈ (brun c {} ls).2, x.2 = accId (doneLog c {} ls) x.1 := by
+  have h := (brun_einv c ls {} [] [] [] seinv_init hnd (by simp)).1
+  simp only [List.nil_append] at h
+  exact h.f
+
+/-- read as an iff on "is there an error": a callback reports an error ⇔ some flush holding one of its `Done`s ended with one -/
+theorem C04_done_error_any_iff (c : BCfg) (ls : List BLabel) (hnd : (consumedIds ls).Nodup) :
+    ∀ x ∈ (brun c {} ls).2, x.2.any = ((doneLog c {} ls).filter (fun y => y.1 == x.1)).any (·.2.any) := by
+  intro x hx
+  rw [C04_done_error_iff c ls hnd x hx]
+  simp only [accId]
+  generalize (doneLog c {} ls).filter (fun y => y.1 == x.1) = l
+  have : ∀ (l : List (Nat × Err)) (a : Err), (l.foldl (fun a x => a.or x.2) a).any = (a.any || l.any (·.2.any)) := by
+    intro l
+    induction l with
+    | nil => intro a; simp
+    | cons y ys ih =>
+      intro a
+      simp only [List.foldl_cons, ih, List.any_cons]
+      cases a; cases y.2; simp [Err.or, Err.any, Bool.or_assoc, Bool.or_comm, Bool.or_left_comm]
+  simpa [Err.any] using this l {}
+
+/-- **conservation through the batcher, over every history** ("for any sequence of requests"): every unit of every consumed
+request is — exactly once — in the pending batch, in a flush in flight, or in a flush that has ended; so when nothing is
+pending or in flight, what was exported (the ended flushes) is exactly what was consumed -/
+theorem C04_batcher_conserves (c : BCfg) (ls : List BLabel) :
+    ((brun c {} ls).1.units ++ (finishedParts c {} ls).flatten).Perm (consumedUnits ls) ∧
+    ((brun c {} ls).1.cur = none → (brun c {} ls).1.flights = [] → ((finishedParts c {} ls).flatten).Perm (consumedUnits ls)) := by
+  have h := (brun_units c ls {} (by simp [FOK])).1
+  have h0 : ({} : BState).units = [] := by simp [BState.units, BState.slots]
+  rw [h0, List.nil_append] at h
+  refine ⟨h, ?_⟩
+  intro hc hf
+  have : (brun c {} ls).1.units = [] := by simp [BState.units, BState.slots, hc, hf]
+  rw [this, List.nil_append] at h
+  exact h
+
+/-- non-vacuity: the scrambled history below records, for request 2, the outcomes of flushes 1, 0 and 2 -/
+example :
+    doneLog ⟨10, 12⟩ {} [.consume 1 [(1, 4)], .consume 2 [(2, 5), (2, 9), (2, 9)], .finish 1 {}, .finish 0 { plain := true },
+      .flush, .finish 2 { shut := true }] = [(2, {}), (1, { plain := true }), (2, { plain := true }), (2, { shut := true })] ∧
+    (brun ⟨10, 12⟩ {} [.consume 1 [(1, 4)], .consume 2 [(2, 5), (2, 9), (2, 9)], .finish 1 {}, .finish 0 { plain := true },
+      .flush, .finish 2 { shut := true }]).2 = [(1, { plain := true }), (2, { plain := true, shut := true })] := by decide
 
 /-- the ref-counted `Done` of a request split over `n+1` flushes, fed the outcomes of those flushes one by one -/
 def feedRef (refs : List RefCount) : List Err → List RefCount × List (Nat × Err)
